@@ -618,7 +618,7 @@ def check(pid, tier):
     rep.assume("edge lengths of the replayed tetrahedra are either exactly tied or separated by > 1e-4 (the code's tie tolerance is 1e-6)")
     rep.assume("exclude_equiv_points: equivalent points share a distance group (the group operations are isometries of the reciprocal lattice) "
                "and the old points are pairwise inequivalent (established by the previous call)")
-    nw = 8
+    nw = 6 if thorough else 4
     if thorough:
         sizes_div = [111, 211, 121, 221, 212, 222, 311, 331, 313, 322, 232, 332, 333]
         jobs = {
@@ -637,7 +637,8 @@ def check(pid, tier):
             "c06_groups": ("MC_KMeshGroups.tla", "SPECIFICATION Spec\nINVARIANT GroupAxioms\nINVARIANT CrystallographicOrder\nINVARIANT OrthogonalAreBox\nCHECK_DEADLOCK FALSE\n", True),
             "c06_grid_loop": ("MC_KMeshGrid.tla", cfg_grid(3, True), False),
             "c06_grid_tab": ("MC_KMeshGridTab.tla", cfg_grid(4, False), True),
-            "c06_divide": ("MC_KMeshDivide.tla", cfg_divide(None, [111, 211, 221, 222, 122], [111, 110, 100], [2, 3], 4, None, False, False), True),
+            "c06_divide": ("MC_KMeshDivide.tla", cfg_divide(None, [111, 211, 221, 222], [111, 110, 100], [2, 3], 4,
+                                                            ["cub_Oh", "cub_T", "tet_D4h", "tet_S4", "ort_D2h", "ort_mM2"], False, False), True),
             "c06_excl": ("MC_KMeshExcl.tla", cfg_excl(3, 5, False), False),
             "c06_tetra": ("MC_KMeshTetra.tla", cfg_tetra(["cub", "ort", "hex"], [9, 2], [9, 4, 2], 4, False), True),
         }
@@ -671,7 +672,7 @@ def check(pid, tier):
     else:
         ftable.spec_violation(rep, st_eq, "c06_tetra_eq")
         rep.add_tlc("c06_tetra_eq", st_eq)
-    must_fail(rep, res.pop("c06_divide_v0"), "c06_divide_v0", ("SubcellsTile",))
+    must_fail(rep, res.pop("c06_divide_v0"), "c06_divide_v0", ("SubcellsTile", "MergeKeepsWeight"))
     must_fail(rep, res.pop("c06_excl_v0"), "c06_excl_v0", ("LoopEqualsDeclarative", "WeightKept", "Lossless"))
     must_fail(rep, res.pop("c06_tetra_v0"), "c06_tetra_v0", ("WeightKept", "WeightByVolume", "SplitsOK"))
     specbad = False
